@@ -46,6 +46,33 @@ class C13Episode(Episode):
                          for wc in self.cfg['watchers'])
         self.first_wid = {}
         self.on_quiet.append(C13Episode.check_wids)
+        self.world.dispatch_hooks.append(self.on_dispatched)
+
+    CONF_KEYS = ('env', 'args', 'working_dir', 'cmd')
+
+    def apply_set(self, r):
+        """an accepted set request changes what is configured from the
+        instant it is applied (before it restarts the workers)"""
+        if r is None or r.cmd != 'set' or r.meta.get('c13_applied') or \
+                r.wname is None:
+            return
+        opts = (r.props or {}).get('options')
+        if not isinstance(opts, dict):
+            return
+        r.meta['c13_applied'] = True
+        for wc in self.cfg['watchers']:
+            if wc['name'].lower() != r.wname.lower():
+                continue
+            for k, v in opts.items():
+                if k == 'cmd':
+                    wc['cmd'] = v
+                elif k in self.CONF_KEYS:
+                    wc['opts'][k] = v
+                    self.probes['configuration_changed_by_set'] += 1
+
+    def on_dispatched(self, r):
+        if r.cmd == 'set' and r.accepted:
+            self.apply_set(r)
 
     @staticmethod
     def wid_of(argv):
@@ -56,6 +83,10 @@ class C13Episode(Episode):
         return None
 
     def on_spawn(self, p):
+        d = self.world.dispatching
+        if d is not None and d.cmd == 'set':
+            # spawned inside the dispatch of a set request: by that request
+            self.apply_set(d)
         wc = self.spec.get(p.marker)
         if wc is None and p.orig_parent == self.world.kernel.getpid_value:
             # every generated command line carries --marker=<watcher>: a
@@ -184,6 +215,8 @@ class C13(Prop):
     rule = ('one case = 1-3 watchers whose cmd / args come from a token '
             'grammar (words, single/double quotes, escaped blanks, circus.wid '
             'and circus.env.X references in both syntaxes and any letter '
+            '(env, args, working_dir and cmd also changed at run time by set '
+            'requests) '
             'case, unknown references, literal dollars; args as string or as '
             'list; shell on/off; env with/without copy_env; working_dir) + a '
             'history of deaths, incr, decr, reload, restart. every simulated '
@@ -273,6 +306,30 @@ class C13(Prop):
             rng.choice([3, 6, 10, 20])
         ops = gen.gen_history(rng, cfg, n, self.REQS, None, quiet_p=0.6,
                               second_req_kinds=['incr', 'kill', 'reload'])
+        cur = dict((i, wc['cmd']) for i, wc in enumerate(cfg['watchers']))
+        for op in ops:
+            if op['op'] != 'req' or op['cmd'] != 'set' or \
+                    rng.random() > 0.4:
+                continue
+            # the configuration changed at run time: the workers started
+            # from then on run the new one
+            wi = op['w']
+            wc = cfg['watchers'][wi]
+            key = rng.choice(['env', 'env', 'args', 'working_dir', 'cmd'])
+            if key == 'env' and wc['opts'].get('copy_env'):
+                key = 'args'
+            if key == 'env':
+                val = {'FOO': rng.choice(['foo2', 'second value', '/q']),
+                       'Bar_9': rng.choice(['bar2', '', 'y'])}
+                if rng.random() < 0.3:
+                    val['NEW'] = 'n'
+            elif key == 'args':
+                val = ' '.join(gen_tokens(rng, rng.randrange(1, depth)))
+            elif key == 'working_dir':
+                val = rng.choice(['/', '/tmp', '/var/tmp', '/usr'])
+            else:
+                cur[wi] = val = cur[wi] + ' --v%d' % rng.randrange(100)
+            op['props'] = {'options': {key: val}}
         return {'cfg': cfg, 'ops': ops}
 
     def run(self, case):
